@@ -59,10 +59,65 @@ class LocalRenamer(ast.NodeTransformer):
         return node
 
 
+def _negate(test):
+    if isinstance(test, ast.UnaryOp) and isinstance(test.op, ast.Not):
+        return test.operand
+    if isinstance(test, ast.Compare) and len(test.ops) == 1:
+        swap = {ast.Is: ast.IsNot, ast.IsNot: ast.Is, ast.In: ast.NotIn,
+                ast.NotIn: ast.In}
+        for a, b in swap.items():
+            if isinstance(test.ops[0], a):
+                return ast.Compare(test.left, [b()], test.comparators)
+    return ast.UnaryOp(ast.Not(), test)
+
+
+class IfSwapper(ast.NodeTransformer):
+    """if c: A else: B  ->  if not c: B else: A   (plain else only)"""
+    def visit_If(self, node):
+        self.generic_visit(node)
+        if node.orelse and not (len(node.orelse) == 1 and
+                                isinstance(node.orelse[0], ast.If)):
+            return ast.If(_negate(node.test), node.orelse, node.body)
+        return node
+
+
+class AndNester(ast.NodeTransformer):
+    """if a and b: X (no else)  ->  if a: if b: X"""
+    def visit_If(self, node):
+        self.generic_visit(node)
+        if not node.orelse and isinstance(node.test, ast.BoolOp) and \
+                isinstance(node.test.op, ast.And):
+            inner = node.body
+            for t in reversed(node.test.values):
+                inner = [ast.If(t, inner, [])]
+            return inner[0]
+        return node
+
+
+class EarlyReturner(ast.NodeTransformer):
+    """a function ending in  if c: return X  return Y   ->  if/else form, and
+    the reverse is covered by the agents' patches; here: trailing
+    `if c: ...return` + rest  ->  if c: ... else: rest"""
+    def visit_FunctionDef(self, node):
+        self.generic_visit(node)
+        body = node.body
+        for i, st in enumerate(body[:-1]):
+            if isinstance(st, ast.If) and not st.orelse and st.body and \
+                    isinstance(st.body[-1], ast.Return) and i >= len(body) - 3:
+                rest = body[i + 1:]
+                node.body = body[:i] + [ast.If(st.test, st.body, rest)]
+                break
+        return node
+
+
+MODES = {'rename': LocalRenamer, 'ifswap': IfSwapper, 'nest': AndNester,
+         'earlyret': EarlyReturner}
+
+
 def transform(src, mode):
     tree = ast.parse(src)
-    if mode == 'rename':
-        tree = LocalRenamer().visit(tree)
+    if mode in MODES:
+        tree = MODES[mode]().visit(tree)
         ast.fix_missing_locations(tree)
     return ast.unparse(tree) + '\n'
 
